@@ -340,6 +340,65 @@ Theorem C10_dial_success :
 Proof. exact succeed_at_find. Qed.
 Print Assumptions C10_dial_success.
 
+(* A dial whose selection spans several transports. Whatever the other transports report - an
+   OpenFailure for their addresses before the ConnectionOpened event of the transport that
+   connects (they are not the last transport, the manager has nothing to report yet) or after it
+   (there is no dial left to conclude) - every address reported failed, in an OpenFailure event or
+   in ConnectionOpened.errors, carries the score of its error kind, the address that connected
+   the established score, and nothing else changes. *)
+Theorem C10_dial_mixed_outcome :
+  forall k s peer before l j after a e0 b,
+  NoDup (keys s) -> NoDup (map fst (before ++ l ++ after)) ->
+  (forall x, In x (map fst (before ++ l ++ after)) -> In x (keys s)) ->
+  nth_error l j = Some (a, e0) -> names peer a = true ->
+  (forall e, error_score k e <> 0%Z) -> sc_established k <> 0%Z ->
+  find b (mixed_outcome k s peer before l j after) =
+    if maddr_eqb b a then Some (sc_established k)
+    else match lookup_err b (before ++ firstn j l ++ after) with
+         | Some e => Some (error_score k e)
+         | None => find b s
+         end.
+Proof. exact mixed_outcome_find. Qed.
+Print Assumptions C10_dial_mixed_outcome.
+
+(* The outcome the model records for a dial(peer) episode in which one attempt connects IS such a
+   mixed outcome: the reported addresses are distinct addresses handed to the transports, each
+   with the error kind of its attempt, the winning position exists; in particular every failed
+   address ends strictly negative and the winner positive (C10_error_score_negative). *)
+Theorem C10_dial_outcome_is_mixed :
+  forall k s peer j0 errs tcp ws qu,
+  NoDup (tcp ++ ws ++ qu) -> (0 < length tcp + length ws + length qu)%nat ->
+  exists before l j after,
+    dial_outcome k s peer (S j0) errs tcp ws qu = mixed_outcome k s peer before l j after /\
+    NoDup (map fst (before ++ l ++ after)) /\
+    (forall x, In x (map fst (before ++ l ++ after)) -> In x (tcp ++ ws ++ qu)) /\
+    (forall x, In x (before ++ l ++ after) -> In x (attempts errs tcp ws qu)) /\
+    (j < length l)%nat /\
+    (l = tag_errs errs 0 tcp \/ l = tag_errs errs (length tcp) ws \/
+     l = tag_errs errs (length tcp + length ws) qu).
+Proof.
+  intros k s peer j0 errs tcp ws qu Hnd Hpos. cbn [dial_outcome].
+  destruct (dial_episode errs tcp ws qu j0) as [[[before l] j] after] eqn:E.
+  exists before, l, j, after. split; [reflexivity|].
+  exact (dial_episode_shape errs tcp ws qu j0 before l j after E Hnd Hpos).
+Qed.
+Print Assumptions C10_dial_outcome_is_mixed.
+
+(* The failure of a transport that is not the last one is not lost when another transport opens
+   the connection: TCP fails all its addresses, then WebSocket connects on its first address. *)
+Theorem C10_dial_first_transport_failure_counts :
+  forall k s peer errs a w ws b,
+  NoDup (keys s) -> NoDup (a :: w :: ws) -> (forall x, In x (a :: w :: ws) -> In x (keys s)) ->
+  names peer w = true -> (forall e, error_score k e <> 0%Z) -> sc_established k <> 0%Z ->
+  (* outcome: position 1 (the first WebSocket address) wins, first other transport (TCP) reports
+     its failure before the ConnectionOpened event: j0 = 1 + n * 1 with n = 2 + |ws| *)
+  find b (dial_outcome k s peer (S (3 + length ws)) errs [a] (w :: ws) []) =
+    if maddr_eqb b w then Some (sc_established k)
+    else if maddr_eqb a b then Some (error_score k (err_at errs 0))
+    else find b s.
+Proof. exact dial_first_transport_failure_counts. Qed.
+Print Assumptions C10_dial_first_transport_failure_counts.
+
 (* ---------- the kind of a dial failure ---------- *)
 
 (* The model's DialError has exactly the variants of src/error.rs, in order, two levels deep
